@@ -168,7 +168,7 @@ Theorem step_jsr_ern :
   forall s w w1 w2 w3 w4 r n s',
     cpu_ok s -> bus_bytes_ok s -> fault s = false -> pc s mod 2 = 0 -> 0 <= pc s -> pc s + 2 < 4294967296 ->
     mem_read SW s (pc s) = Some w ->
-    decode_ref w w1 w2 w3 w4 = Some (IJsr (JReg r), 2) -> r <> 7 ->
+    decode_ref w w1 w2 w3 w4 = Some (IJsr (JReg r), 2) ->
     sem_ref (IJsr (JReg r)) 2 s = Some s' ->
     (i <- cs KI 2 ;; k <- csa KK 2 ((reg32 s 7 - 4) mod A24) ;; ret (u8add i k)) (set_opc (pc s) s') = Ok n (set_opc (pc s) s') ->
     step s = Ok n (set_opc (pc s) s').
